@@ -20,26 +20,37 @@ theorem C03_multiple_wrapped (o : Opts) (e1 e2 : Node) (rest : List Node) (slots
 /-- the `default` slot is a parameterless arrow returning the children array, first in the slots object -/
 theorem C03_wrap_shape (o : Opts) (elems : List Node) (flag : Nat) (ho : o.optimize = false) :
     wrapChildren o elems flag none = nObject [nKV (nIdentName "default") (nArrow [] (nArray elems))] := by
-  simp [wrapChildren, ho]
+  simp [wrapChildren, slotProps, ho]
 
 /-- `v-slots={{a: f}}` entries are merged beside `default`. -/
 theorem C03_wrap_vslots_literal (o : Opts) (elems sp : List Node) (flag : Nat) (as1 as2 : List String)
     (ho : o.optimize = false) :
     wrapChildren o elems flag (some (.mk .object as1 [.mk .list as2 sp]))
       = nObject (nKV (nIdentName "default") (nArrow [] (nArray elems)) :: sp) := by
-  simp [wrapChildren, ho]
+  simp [wrapChildren, slotProps, ho]
 
-/-- A single function child is the `default` slot itself. -/
+/-- A single function child is the `default` slot itself, with the `v-slots` entries beside it. -/
 theorem C03_function_child (o : Opts) (isComp : Bool) (as : List String) (ks : List Node) (aas : List String)
     (slots : Option Node) (flag : Nat) (st : St) :
     finishChildren o [.mk .arg aas [.mk .arrow as ks]] isComp slots flag st
-      = (nObject [nKV (nIdentName "default") (.mk .arrow as ks)], st) := by
+      = (nObject (nKV (nIdentName "default") (.mk .arrow as ks) :: slotProps slots), st) := by
   simp [finishChildren]
 
-/-- A single object-literal child is the slots object. -/
+/-- ... and `v-slots` entries are never lost beside a function child: with `v-slots={{a: f}}` the slots object is
+    `{default: fn, a: f}`; without `v-slots` it is `{default: fn}`. -/
+theorem C03_function_child_keeps_vslots (o : Opts) (isComp : Bool) (as as1 as2 : List String) (ks sp : List Node) (aas : List String)
+    (flag : Nat) (st : St) :
+    finishChildren o [.mk .arg aas [.mk .arrow as ks]] isComp (some (.mk .object as1 [.mk .list as2 sp])) flag st
+      = (nObject (nKV (nIdentName "default") (.mk .arrow as ks) :: sp), st)
+    ∧ finishChildren o [.mk .arg aas [.mk .arrow as ks]] isComp none flag st
+      = (nObject [nKV (nIdentName "default") (.mk .arrow as ks)], st) := by
+  simp [finishChildren, slotProps]
+
+/-- A single object-literal child is the slots object, with the `v-slots` entries beside its own. -/
 theorem C03_object_child (o : Opts) (isComp : Bool) (as las aas : List String) (props : List Node)
     (slots : Option Node) (flag : Nat) (st : St) (ho : o.optimize = false) :
-    finishChildren o [.mk .arg aas [.mk .object as [.mk .list las props]]] isComp slots flag st = (nObject props, st) := by
+    finishChildren o [.mk .arg aas [.mk .object as [.mk .list las props]]] isComp slots flag st
+      = (nObject (props ++ slotProps slots), st) := by
   simp [finishChildren, ho]
 
 /-- A single identifier child of a component is decided at runtime: `_isSlot(x) ? x : {default: () => [x]}`. -/
